@@ -1217,6 +1217,405 @@ fn push_tcp_case(out: &mut Out, lazy: bool, peer0: Peer, steps: &[TcpStep]) {
     });
 }
 
+// ------------------------------------------------------------------ balanced channels (seed r5-C14)
+// `Channel::balance_list` / `Channel::balance_channel`: tower's p2c Balance in front of one lazy
+// `Connection` (= Reconnect) per endpoint, all behind the same Buffer worker.  Balance polls the
+// chosen endpoint's poll_ready AGAIN right before dispatch (ReadyCache::check_ready_index), so
+// Reconnect::poll_ready runs at least twice before `call` - a usage a plain channel never produces.
+// The endpoints' connector is fixed by tonic (Endpoint::http_connector: hyper-util's HttpConnector),
+// so these kinds run over real 127.0.0.1 sockets and the real clock: a refused connect is Pending
+// at least once before it fails.
+#[derive(Clone, Copy, Debug, PartialEq, Eq)]
+enum BalStep {
+    /// a healthy tonic server starts listening on endpoint e's port
+    Up(usize),
+    /// endpoint e's server (and its connections) go away: nothing listens, connects are refused
+    Down(usize),
+    /// balance_channel only: Change::Insert(e, endpoint e) / Change::Remove(e) through the Sender
+    Insert(usize),
+    Remove(usize),
+    Call,
+}
+impl BalStep {
+    fn json(&self) -> Value {
+        match self {
+            BalStep::Up(e) => json!({"up": e}),
+            BalStep::Down(e) => json!({"down": e}),
+            BalStep::Insert(e) => json!({"insert": e}),
+            BalStep::Remove(e) => json!({"remove": e}),
+            BalStep::Call => json!("call"),
+        }
+    }
+    fn from_json(v: &Value) -> BalStep {
+        for (k, f) in [
+            ("up", BalStep::Up as fn(usize) -> BalStep),
+            ("down", BalStep::Down),
+            ("insert", BalStep::Insert),
+            ("remove", BalStep::Remove),
+        ] {
+            if let Some(e) = v.get(k) {
+                return f(e.as_u64().unwrap() as usize);
+            }
+        }
+        BalStep::Call
+    }
+}
+/// real-time bound of one call on a balanced channel (a hang is reported after it)
+const BAL_CALL_BOUND: Duration = Duration::from_secs(12);
+/// one endpoint's peer.  While it is down its port stays RESERVED by a bound socket that does not
+/// listen (connects are refused by the kernel, nobody else can take the port)
+struct BalPeer {
+    port: u16,
+    reserved: Option<tokio::net::TcpSocket>,
+    /// the running server: its own thread and runtime (stop signal, "everything is gone" signal)
+    server: Option<(tokio::sync::oneshot::Sender<()>, tokio::sync::oneshot::Receiver<()>)>,
+}
+async fn reserve_port(port: u16) -> tokio::net::TcpSocket {
+    for _ in 0..2000 {
+        let s = tokio::net::TcpSocket::new_v4().unwrap();
+        s.set_reuseaddr(true).unwrap();
+        if s.bind(std::net::SocketAddr::from(([127, 0, 0, 1], port))).is_ok() {
+            return s;
+        }
+        tokio::time::sleep(Duration::from_millis(10)).await;
+    }
+    panic!("cannot bind 127.0.0.1:{}", port);
+}
+impl BalPeer {
+    async fn new() -> BalPeer {
+        let s = reserve_port(0).await;
+        let port = s.local_addr().unwrap().port();
+        BalPeer { port, reserved: Some(s), server: None }
+    }
+    fn is_up(&self) -> bool {
+        self.server.is_some()
+    }
+    /// a healthy tonic server on a runtime (and thread) of its own, so that `down` can take away
+    /// the listener AND every connection, whatever state they are in (like a killed process)
+    async fn up(&mut self) {
+        if self.is_up() {
+            return;
+        }
+        let s = match self.reserved.take() {
+            Some(s) => s,
+            None => reserve_port(self.port).await,
+        };
+        let (stop_tx, stop_rx) = tokio::sync::oneshot::channel::<()>();
+        let (gone_tx, gone_rx) = tokio::sync::oneshot::channel::<()>();
+        let (ready_tx, ready_rx) = tokio::sync::oneshot::channel::<()>();
+        std::thread::spawn(move || {
+            let rt = tokio::runtime::Builder::new_current_thread().enable_all().build().unwrap();
+            rt.block_on(async move {
+                let l = s.listen(1024).unwrap();
+                let _ = ready_tx.send(());
+                let (_rep, health) = tonic_health::server::health_reporter();
+                tokio::select! {
+                    _ = Server::builder().add_service(health).serve_with_incoming(tokio_stream::wrappers::TcpListenerStream::new(l)) => {}
+                    _ = stop_rx => {}
+                }
+            });
+            drop(rt); // the listener, every connection task and its socket are gone now
+            let _ = gone_tx.send(());
+        });
+        let _ = ready_rx.await;
+        self.server = Some((stop_tx, gone_rx));
+    }
+    async fn down(&mut self) {
+        if let Some((stop, gone)) = self.server.take() {
+            let _ = stop.send(());
+            let _ = gone.await;
+        }
+        if self.reserved.is_none() {
+            self.reserved = Some(reserve_port(self.port).await);
+        }
+    }
+}
+/// lets every task that can run (server, Buffer worker, hyper connection tasks) run and the io
+/// driver deliver what the kernel has: everything lives on ONE current-thread runtime, each sleep
+/// is at least one turn of the reactor
+async fn bal_settle() {
+    for _ in 0..4 {
+        tokio::time::sleep(Duration::from_millis(10)).await;
+    }
+}
+struct BalObs {
+    calls: Vec<Outcome>,
+    panics: usize,
+}
+/// mode 0: balance_list over endpoints 0..n; mode 1: balance_channel, endpoints come and go
+/// through the Sender (steps Insert / Remove)
+async fn run_balance(n: usize, dynamic: bool, up0: &[bool], steps: &[BalStep]) -> BalObs {
+    let p0 = PANICS.load(Ordering::SeqCst);
+    let mut peers = vec![];
+    for e in 0..n {
+        let mut p = BalPeer::new().await;
+        if up0[e] {
+            p.up().await;
+        }
+        peers.push(p);
+    }
+    bal_settle().await;
+    let eps: Vec<Endpoint> = peers.iter().map(|p| Endpoint::from_shared(format!("http://127.0.0.1:{}", p.port)).unwrap()).collect();
+    let (ch, tx) = if dynamic {
+        let (ch, tx) = tonic::transport::Channel::balance_channel::<usize>(16);
+        (ch, Some(tx))
+    } else {
+        (tonic::transport::Channel::balance_list(eps.clone().into_iter()), None)
+    };
+    bal_settle().await;
+    let mut client = HealthClient::new(ch);
+    let mut obs = BalObs { calls: vec![], panics: 0 };
+    for s in steps {
+        match s {
+            BalStep::Up(e) => peers[*e].up().await,
+            BalStep::Down(e) => peers[*e].down().await,
+            BalStep::Insert(e) => {
+                let _ = tx.as_ref().unwrap().send(tonic::transport::channel::Change::Insert(*e, eps[*e].clone())).await;
+            }
+            BalStep::Remove(e) => {
+                let _ = tx.as_ref().unwrap().send(tonic::transport::channel::Change::Remove(*e)).await;
+            }
+            BalStep::Call => {
+                let req = HealthCheckRequest { service: String::new() };
+                let o = match tokio::time::timeout(BAL_CALL_BOUND, client.check(req)).await {
+                    Err(_) => Outcome::Hang,
+                    Ok(Ok(resp)) if resp.get_ref().status == 1 => Outcome::Ok,
+                    Ok(Ok(resp)) => Outcome::Err(999, 0, 0, format!("unexpected response {:?}", resp.get_ref())),
+                    Ok(Err(st)) => Outcome::Err(st.code() as i32 as u32, 0, 0, st.message().to_string()),
+                };
+                let hang = o == Outcome::Hang;
+                obs.calls.push(o);
+                if hang {
+                    break; // one bound per case is enough
+                }
+            }
+        }
+        bal_settle().await;
+    }
+    drop(client);
+    for p in peers.iter_mut() {
+        p.down().await;
+    }
+    obs.panics = PANICS.load(Ordering::SeqCst) - p0;
+    obs
+}
+
+/// Model-independent oracle of the balanced kinds: a replay of the ENVIRONMENT only (which
+/// endpoints are in the balancer's set, which of them have a listening server).
+///  - every call completes within the real-time bound, with a response or UNAVAILABLE, no panic;
+///  - no response while no endpoint of the set is reachable;
+///  - a failure while EVERY endpoint of the set is reachable must be an outstanding one: an
+///    endpoint that was unreachable at an earlier call may hold the failure of the attempt made
+///    then (Balance readies all its endpoints, the call is answered by one of them); each such
+///    failure is reported at most once.  With ONE endpoint nothing is ever outstanding (the
+///    failure goes to the call during which the attempt was made): the first call after the
+///    endpoint is reachable again must succeed.
+fn balance_oracle(n: usize, dynamic: bool, up0: &[bool], steps: &[BalStep], o: &BalObs) -> Option<String> {
+    if o.panics > 0 {
+        return Some(format!("balance: {} panic(s) inside the channel's tasks", o.panics));
+    }
+    let mut up = up0.to_vec();
+    let mut inset = vec![!dynamic; n];
+    // endpoints that may hold an undelivered failure (always a superset of those that do)
+    let mut owe = vec![false; n];
+    // failures that may still be reported in the current all-reachable period
+    let mut allowed: Option<usize> = None;
+    // several endpoints only: an endpoint that was reachable at an earlier call may own a
+    // connection (established, or a connect that Balance has not polled to its end) that the peer
+    // kills when it goes away; a request dispatched on it is a call in flight on a dying
+    // connection - outside the quantifier, as in tcp.loopback: CANCELLED is accepted for it
+    let mut seen_up = vec![false; n];
+    let mut i = 0;
+    for s in steps {
+        match s {
+            BalStep::Up(e) => {
+                up[*e] = true;
+                allowed = None;
+            }
+            BalStep::Down(e) => {
+                up[*e] = false;
+                allowed = None;
+            }
+            BalStep::Insert(e) => {
+                inset[*e] = true;
+                owe[*e] = false;
+                seen_up[*e] = false;
+                allowed = None;
+            }
+            BalStep::Remove(e) => {
+                inset[*e] = false;
+                owe[*e] = false;
+                seen_up[*e] = false;
+                if let Some(a) = allowed {
+                    allowed = Some(a.min(owe.iter().filter(|x| **x).count()));
+                }
+            }
+            BalStep::Call => {
+                let out = match o.calls.get(i) {
+                    Some(c) => c,
+                    None => return Some(format!("balance: call {} did not produce an outcome", i + 1)),
+                };
+                i += 1;
+                let down: Vec<usize> = (0..n).filter(|e| inset[*e] && !up[*e]).collect();
+                let reachable = (0..n).any(|e| inset[e] && up[e]);
+                match out {
+                    Outcome::Hang => {
+                        return Some(format!(
+                            "balance: call {} did not complete within {:?} (hang) - endpoints of the set: {} reachable, {} unreachable",
+                            i,
+                            BAL_CALL_BOUND,
+                            (0..n).filter(|e| inset[*e] && up[*e]).count(),
+                            down.len()
+                        ))
+                    }
+                    Outcome::Ok => {
+                        if !reachable {
+                            return Some(format!("balance: call {} succeeded although no endpoint is reachable", i));
+                        }
+                    }
+                    Outcome::Err(14, ..) => {
+                        if down.is_empty() {
+                            let a = allowed.unwrap_or_else(|| owe.iter().filter(|x| **x).count());
+                            if a == 0 {
+                                return Some(format!(
+                                    "balance: call {} failed (UNAVAILABLE) although every endpoint is reachable and no failure is outstanding: no recovery / a failure reported twice",
+                                    i
+                                ));
+                            }
+                            allowed = Some(a - 1);
+                            if a == 1 {
+                                owe.iter_mut().for_each(|x| *x = false);
+                            }
+                        } else {
+                            let cand: Vec<usize> = (0..n).filter(|e| inset[*e] && (!up[*e] || owe[*e])).collect();
+                            if cand.len() == 1 {
+                                owe[cand[0]] = false; // delivered to this very call
+                                continue;
+                            }
+                        }
+                    }
+                    Outcome::Err(1, ..) if n >= 2 && down.iter().any(|e| seen_up[*e]) => {}
+                    Outcome::Err(c, _, _, m) => {
+                        return Some(format!("balance: call {} failed with code {} ({:?}), not UNAVAILABLE", i, c, m));
+                    }
+                }
+                for e in 0..n {
+                    if inset[e] && up[e] {
+                        seen_up[e] = true;
+                    }
+                }
+                if inset.iter().filter(|x| **x).count() >= 2 {
+                    for e in down {
+                        owe[e] = true;
+                    }
+                }
+            }
+        }
+    }
+    None
+}
+fn push_balance_case(out: &mut Out, kind: &str, n: usize, dynamic: bool, up0: &[bool], steps: &[BalStep]) {
+    let rt = tokio::runtime::Builder::new_current_thread().enable_all().build().unwrap();
+    let o = rt.block_on(run_balance(n, dynamic, up0, steps));
+    drop(rt);
+    let orc = balance_oracle(n, dynamic, up0, steps, &o);
+    for c in &o.calls {
+        match c {
+            Outcome::Err(code, _, _, m) => out.hist("balance_outcomes", format!("{} {}", code, m.chars().take(40).collect::<String>())),
+            Outcome::Ok => out.hist("balance_outcomes", "ok"),
+            Outcome::Hang => out.hist("balance_outcomes", "hang"),
+        }
+    }
+    out.hist("balance_endpoints", n);
+    let code = |c: &Outcome| match c {
+        Outcome::Ok => 0,
+        Outcome::Err(c, ..) => *c,
+        Outcome::Hang => 1000,
+    };
+    let (model, impl_obs) = if n == 1 && !dynamic {
+        // ONE endpoint: exact.  The model's Balance driver polls Reconnect::poll_ready until Ready,
+        // once more (check_ready_index), then calls
+        let mut ms: Vec<String> = vec![];
+        for s in steps {
+            match s {
+                BalStep::Up(_) => ms.push("Env ConnectSucceeds".into()),
+                BalStep::Down(_) => {
+                    ms.push("Env ConnectionDropped".into());
+                    ms.push("Env (ConnectFails 2)".into());
+                }
+                BalStep::Call => ms.push("Call".into()),
+                _ => {}
+            }
+        }
+        (
+            format!("obs_balance_codes 1 {} {}", if up0[0] { "Up" } else { "(Down 2)" }, coq_list(&ms, |s| s.clone())),
+            Tr::L(o.calls.iter().map(|c| Tr::n(code(c))).collect()),
+        )
+    } else {
+        // several endpoints: which endpoint answers is tower's p2c choice and a race of connects -
+        // not modelled.  Compared: calls while NO endpoint of the set is reachable (the model's
+        // balanced driver on an unreachable endpoint); the others are canonicalised to 0 when
+        // the oracle admits them
+        let mut up = up0.to_vec();
+        let mut inset = vec![!dynamic; n];
+        let mut canon = vec![];
+        let mut i = 0;
+        let mut ms: Vec<String> = vec![];
+        for s in steps {
+            match s {
+                BalStep::Up(e) => {
+                    up[*e] = true;
+                    ms.push(format!("BUp {}", e));
+                }
+                BalStep::Down(e) => {
+                    up[*e] = false;
+                    ms.push(format!("BDown {}", e));
+                }
+                BalStep::Insert(e) => {
+                    inset[*e] = true;
+                    ms.push(format!("BInsert {}", e));
+                }
+                BalStep::Remove(e) => {
+                    inset[*e] = false;
+                    ms.push(format!("BRemove {}", e));
+                }
+                BalStep::Call => {
+                    ms.push("BCall".into());
+                    if let Some(c) = o.calls.get(i) {
+                        let reachable = (0..n).any(|e| inset[e] && up[e]);
+                        // (a CANCELLED the oracle admits - a request on a dying connection - counts as the failure it is)
+                        let admitted = matches!(c, Outcome::Ok | Outcome::Err(14, ..)) || (orc.is_none() && matches!(c, Outcome::Err(1, ..)));
+                        canon.push(if admitted { if reachable { 0 } else { 14 } } else { code(c) });
+                    }
+                    i += 1;
+                }
+            }
+        }
+        (
+            format!(
+                "obs_balance_set_codes {} {} {}",
+                coq_list(&inset_init(n, dynamic), |b| coq_bool(*b).to_string()),
+                coq_list(up0, |b| coq_bool(*b).to_string()),
+                coq_list(&ms, |s| s.clone())
+            ),
+            Tr::L(canon.iter().map(|c| Tr::n(*c)).collect()),
+        )
+    };
+    out.push(Case {
+        kind: kind.to_string(),
+        input: json!({"balance": {"endpoints": n, "dynamic": dynamic, "up0": up0},
+                      "steps": steps.iter().map(|s| s.json()).collect::<Vec<_>>(),
+                      "impl": {"calls": o.calls.iter().map(|c| c.json()).collect::<Vec<_>>()}}),
+        model,
+        impl_obs,
+        oracle: orc,
+        nontrivial: true,
+    });
+}
+fn inset_init(n: usize, dynamic: bool) -> Vec<bool> {
+    vec![!dynamic; n]
+}
+
 /// event script -> history with `k` calls at the quiescent point after every event
 fn with_calls(script: &[Step], leading_call: bool, k: impl Fn(usize) -> u32) -> Vec<Step> {
     let mut h = vec![];
@@ -1282,6 +1681,20 @@ fn main() {
                 })
                 .collect();
             push_tcp_case(&mut out, i["lazy"].as_bool().unwrap(), Peer::from_name(p0.as_str().unwrap()), &steps);
+            out.finish(IMPORTS, "replay of one stored case", json!({}));
+            return;
+        }
+        if let Some(b) = i.get("balance") {
+            let steps: Vec<BalStep> = i["steps"].as_array().unwrap().iter().map(BalStep::from_json).collect();
+            let up0: Vec<bool> = b["up0"].as_array().unwrap().iter().map(|x| x.as_bool().unwrap()).collect();
+            push_balance_case(
+                &mut out,
+                v["kind"].as_str().unwrap_or("balance.replay"),
+                b["endpoints"].as_u64().unwrap() as usize,
+                b["dynamic"].as_bool().unwrap(),
+                &up0,
+                &steps,
+            );
             out.finish(IMPORTS, "replay of one stored case", json!({}));
             return;
         }
@@ -1432,6 +1845,90 @@ fn main() {
         }
     }
 
+    // balanced channels (seed r5-C14): real Channel::balance_list / balance_channel over 127.0.0.1
+    {
+        use BalStep::{Call as C, Down as D, Insert as I, Remove as R, Up as U};
+        fn seqs(alpha: &[BalStep], len: usize) -> Vec<Vec<BalStep>> {
+            let mut r: Vec<Vec<BalStep>> = vec![vec![]];
+            for _ in 0..len {
+                r = r.iter().flat_map(|s| alpha.iter().map(move |a| { let mut t = s.clone(); t.push(*a); t })).collect();
+            }
+            r
+        }
+        // k(j) calls after the j-th event (and before the first)
+        fn calls_after(script: &[BalStep], k: impl Fn(usize) -> usize) -> Vec<BalStep> {
+            let mut h = vec![BalStep::Call; k(0)];
+            for (j, s) in script.iter().enumerate() {
+                h.push(*s);
+                h.extend(vec![BalStep::Call; k(j + 1)]);
+            }
+            h
+        }
+        // ONE endpoint: every script over {server starts, server goes away} up to length 3 (thorough 5)
+        for up0 in [false, true] {
+            for len in 0..=(if a.thorough { 5 } else { 3 }) {
+                for (idx, s) in seqs(&[U(0), D(0)], len).into_iter().enumerate() {
+                    push_balance_case(&mut out, "balance.list1", 1, false, &[up0], &calls_after(&s, |j| 1 + (idx + j) % 2));
+                }
+            }
+        }
+        // TWO endpoints
+        let ups: &[[bool; 2]] = if a.thorough { &[[false, false], [true, false], [false, true], [true, true]] } else { &[[false, false], [true, false]] };
+        for up0 in ups {
+            push_balance_case(&mut out, "balance.list2", 2, false, up0, &[C, C, U(0), U(1), C, C, C, D(0), C, C, C, D(1), C, C, U(1), C, C, C]);
+            for len in 0..=(if a.thorough { 3 } else { 2 }) {
+                if !a.thorough && len == 1 {
+                    continue;
+                }
+                for (idx, s) in seqs(&[U(0), D(0), U(1), D(1)], len).into_iter().enumerate() {
+                    push_balance_case(&mut out, "balance.list2", 2, false, up0, &calls_after(&s, |j| 2 + (idx + j) % 2));
+                }
+            }
+        }
+        // endpoints inserted / removed through the Sender (no call while the set is empty: tower's
+        // Balance is then Pending by design - there is no endpoint to ask)
+        let dynamic: Vec<([bool; 2], Vec<BalStep>)> = vec![
+            ([false, false], vec![I(0), C, C, U(0), C, C, D(0), C, C]),
+            ([false, true], vec![I(0), C, C, I(1), C, C, C, R(1), C, C, U(0), C, C, R(0), I(1), C, C]),
+            ([true, false], vec![I(0), I(1), C, C, C, R(0), C, C, U(1), C, C, C, I(0), D(1), C, C, C]),
+            ([false, false], vec![I(0), I(1), C, C, R(0), C, C, U(1), C, C, C, R(1), I(0), C, U(0), C, C]),
+            ([false, false], vec![I(1), C, R(1), I(1), C, U(1), C, C, R(1), I(1), C, D(1), C, C]),
+            ([true, true], vec![I(0), C, D(0), C, C, I(1), C, C, R(0), C, C, U(0), I(0), C, C]),
+        ];
+        for (up0, s) in &dynamic {
+            push_balance_case(&mut out, "balance.channel", 2, true, up0, s);
+        }
+        for _ in 0..(if a.thorough { 60 } else { 8 }) {
+            let up0 = [r.chance(1, 2), r.chance(1, 2)];
+            let mut inset = [false, false];
+            let mut s = vec![];
+            for _ in 0..r.range(6, 14) {
+                let e = r.below(2) as usize;
+                let any = inset[0] || inset[1];
+                match r.below(8) {
+                    0 => s.push(U(e)),
+                    1 => s.push(D(e)),
+                    2 | 3 if !inset[e] => {
+                        inset[e] = true;
+                        s.push(I(e));
+                    }
+                    4 if inset[e] => {
+                        inset[e] = false;
+                        s.push(R(e));
+                    }
+                    _ if any => s.push(C),
+                    _ => {}
+                }
+            }
+            if !(inset[0] || inset[1]) {
+                s.push(I(0));
+            }
+            s.push(C);
+            s.push(C);
+            push_balance_case(&mut out, "balance.channel", 2, true, &up0, &s);
+        }
+    }
+
     // exhaustive: every script over {fail, succeed, drop} up to the bound, a call after every event
     let max = if a.thorough { 8 } else { 6 };
     let alpha = [fail(0), succeed, Drop];
@@ -1536,12 +2033,38 @@ fn main() {
 
     out.finish(
         IMPORTS,
-        "script.exhaustive: ALL scripts over {connect fails, connect succeeds, connection dropped} up to length 6 (thorough 8) x lazy/eager, a unary call at the quiescent point after every event (and optionally before the first), initial reachability and connector latency (0..2 Pending polls) varied; concurrent.k: ALL such scripts up to length 4 (thorough 6) with 2..4 calls issued TOGETHER (queued in the tower Buffer) after every event; history.random: random histories with calls and batches of 0..4 at arbitrary positions; tcp.loopback: real Endpoint::connect()/connect_lazy() (hyper-util HttpConnector, real clock) against 127.0.0.1 peers {nothing listening, accepts and closes, accepts and answers HTTP/1.1, real tonic server shut down and restarted on the same port}, codes compared with the model (nothing listening = refusal, strictly UNAVAILABLE; accept-and-close/garbage = established connection dying with the request in flight, CANCELLED or UNAVAILABLE accepted; healthy = response, also after restart); observe.connector_not_ready: connector whose poll_ready errs after g cycles (outside the property: tower's contract makes the Buffer worker fail for good; model exact, oracle only definite/no panic/no hang); script.error_kinds: every shape of the error beneath the ConnectError (the reason selects it: 20 std::io::ErrorKinds, a custom error type, a boxed String, wrapped 0..2 levels deep) for refusals of the connector and for failures of the HTTP/2 handshake on a scripted io, lazy and eager - strictly UNAVAILABLE; all other kinds draw their reasons from the same space; script.handshake / history.random_handshake: the alphabet widened by {transport connects but the peer closes at once (handshake fails; strictly UNAVAILABLE, fixed finding F-C14a), transport connects but the peer is not HTTP/2 (established connection dies under the request, CANCELLED or UNAVAILABLE accepted as for racy drops)}; corpus.racy: calls issued before the client noticed the drop (outside the property's quantifier, behaviour recorded and modelled). The scripted connector enforces the tower Service protocol (its poll_ready answers Pending 0..2 times per cycle; a call without a Ready poll_ready is recorded / panics / runs under a real tower::limit::ConcurrencyLimit, rotating per case; corpus.protocol = drop-and-reconnect sequences in every mode). Real Endpoint::connect_with_connector[_lazy] + Buffer worker + Reconnect + hyper h2 client against a real tonic Server over tokio duplex pipes, paused clock. Non-trivial = at least one call and two steps. Distinct = distinct (kind, model expression).",
+        "script.exhaustive: ALL scripts over {connect fails, connect succeeds, connection dropped} up to length 6 (thorough 8) x lazy/eager, a unary call at the quiescent point after every event (and optionally before the first), initial reachability and connector latency (0..2 Pending polls) varied; concurrent.k: ALL such scripts up to length 4 (thorough 6) with 2..4 calls issued TOGETHER (queued in the tower Buffer) after every event; history.random: random histories with calls and batches of 0..4 at arbitrary positions; tcp.loopback: real Endpoint::connect()/connect_lazy() (hyper-util HttpConnector, real clock) against 127.0.0.1 peers {nothing listening, accepts and closes, accepts and answers HTTP/1.1, real tonic server shut down and restarted on the same port}, codes compared with the model (nothing listening = refusal, strictly UNAVAILABLE; accept-and-close/garbage = established connection dying with the request in flight, CANCELLED or UNAVAILABLE accepted; healthy = response, also after restart); balance.list1 / balance.list2 / balance.channel: real Channel::balance_list (1 and 2 endpoints) and Channel::balance_channel (endpoints inserted/removed through the Sender) over 127.0.0.1 (tower p2c Balance polls Reconnect::poll_ready again right before every dispatch; peers: nothing listening on a reserved port = refused after a Pending connect, healthy tonic server, started/stopped on the same port; real clock, 12 s bound per call): list1 = ALL scripts over {server starts, server goes away} up to length 3 (thorough 5) x initially up/down, 1..2 calls after every event, codes compared with the model's balanced driver (exact); list2 = all scripts over the two endpoints' events of length 0 and 2 (thorough 0..3) + a long one, channel = hand-written and random insert/remove/up/down scripts (model: calls while no endpoint of the set is reachable); oracle: every call completes within the bound with a response or UNAVAILABLE, no response while no endpoint is reachable, a failure while every endpoint is reachable only for a failure still outstanding from an earlier call (never with one endpoint: the first call after the endpoint is back succeeds), each reported once; observe.connector_not_ready: connector whose poll_ready errs after g cycles (outside the property: tower's contract makes the Buffer worker fail for good; model exact, oracle only definite/no panic/no hang); script.error_kinds: every shape of the error beneath the ConnectError (the reason selects it: 20 std::io::ErrorKinds, a custom error type, a boxed String, wrapped 0..2 levels deep) for refusals of the connector and for failures of the HTTP/2 handshake on a scripted io, lazy and eager - strictly UNAVAILABLE; all other kinds draw their reasons from the same space; script.handshake / history.random_handshake: the alphabet widened by {transport connects but the peer closes at once (handshake fails; strictly UNAVAILABLE, fixed finding F-C14a), transport connects but the peer is not HTTP/2 (established connection dies under the request, CANCELLED or UNAVAILABLE accepted as for racy drops)}; corpus.racy: calls issued before the client noticed the drop (outside the property's quantifier, behaviour recorded and modelled). The scripted connector enforces the tower Service protocol (its poll_ready answers Pending 0..2 times per cycle; a call without a Ready poll_ready is recorded / panics / runs under a real tower::limit::ConcurrencyLimit, rotating per case; corpus.protocol = drop-and-reconnect sequences in every mode). Real Endpoint::connect_with_connector[_lazy] + Buffer worker + Reconnect + hyper h2 client against a real tonic Server over tokio duplex pipes, paused clock. Non-trivial = at least one call and two steps. Distinct = distinct (kind, model expression).",
         json!({}),
     );
 }
 
 fn explore() {
+    if std::env::args().any(|x| x == "--balance") {
+        use BalStep::*;
+        let rt = tokio::runtime::Builder::new_current_thread().enable_all().build().unwrap();
+        let t0 = std::time::Instant::now();
+        let show = |what: &str, o: &BalObs| {
+            let v: Vec<String> = o.calls.iter().map(|c| match c { Outcome::Ok => "ok".into(), Outcome::Hang => "HANG".into(), Outcome::Err(c, _, _, m) => format!("{}:{}", c, m.chars().take(30).collect::<String>()) }).collect();
+            println!("{} -> {:?} panics={} t={:?}", what, v, o.panics, t0.elapsed());
+        };
+        for up in [false, true] {
+            let o = rt.block_on(run_balance(1, false, &[up], &[Call, Call, Up(0), Call, Call, Down(0), Call, Call, Up(0), Call]));
+            show(&format!("list1 up0={}", up), &o);
+        }
+        for _ in 0..6 {
+            let o = rt.block_on(run_balance(2, false, &[false, false], &[Call, Call, Up(0), Up(1), Call, Call, Call, Down(0), Call, Call, Call, Call, Down(1), Call, Call, Call]));
+            show("list2 down,down", &o);
+        }
+        for _ in 0..8 {
+            let st = [Call, Call, Call, Up(0), Call, Call, Down(0), Call, Call, Call, Up(1), Up(0), Call, Call, Down(1), Down(0), Call, Call, Call];
+            let o = rt.block_on(run_balance(2, false, &[false, false], &st));
+            show("list2 doomed", &o);
+            println!("   oracle: {:?}", balance_oracle(2, false, &[false, false], &st, &o));
+        }
+        let o = rt.block_on(run_balance(2, true, &[false, true], &[Insert(0), Call, Call, Insert(1), Call, Call, Call, Remove(1), Call, Call, Up(0), Call, Remove(0), Insert(1), Call]));
+        show("chan", &o);
+        return;
+    }
     {
         use Peer::*;
         let c = TcpStep::Call;
